@@ -1287,6 +1287,9 @@ func arg_StdioServer_SendRequest__request(ch *child, ctx context.Context, s *mcp
 	params["seq"] = -i
 	req.Method = "reused"
 	req.Params = nil
+	if i%2 == 0 {
+		time.Sleep(2 * time.Millisecond) // nothing of ours orders the write above with the library's goroutines meanwhile
+	}
 	cancel()
 	ch.did(map[bool]error{true: nil, false: err}[i%2 == 0])
 }
